@@ -32,9 +32,7 @@ from pynguin.instrumentation.version.common import (
     InstrumentationSetupAction,
     InstrumentationStackValue,
     after,
-    before,
     extract_name,
-    override,
 )
 from pynguin.instrumentation.version.python3_11 import (
     CALL_NAMES,
@@ -421,10 +419,10 @@ class CheckedCoverageInstrumentation(python3_11.CheckedCoverageInstrumentation):
             case "DELETE_FAST" | "LOAD_FAST_AND_CLEAR":
                 # Instrumentation before the original instruction
                 # (otherwise we can not read the data)
-                node.basic_block[before(instr_index)] = instructions
+                node.basic_block[node.before(instr_index)] = instructions
             case "LOAD_FAST" | "LOAD_FAST_CHECK" | "STORE_FAST":
                 # Instrumentation after the original instruction
-                node.basic_block[after(instr_index)] = instructions
+                node.basic_block[node.after(instr_index)] = instructions
 
     def visit_attr_access(  # noqa: D102, PLR0917
         self,
@@ -457,7 +455,7 @@ class CheckedCoverageInstrumentation(python3_11.CheckedCoverageInstrumentation):
         match instr.name:
             case "LOAD_ATTR" | "LOAD_SUPER_ATTR" | "DELETE_ATTR" | "IMPORT_FROM":
                 # Instrumentation before the original instruction
-                node.basic_block[before(instr_index)] = (
+                node.basic_block[node.before(instr_index)] = (
                     self.instructions_generator.generate_instructions(
                         InstrumentationSetupAction.COPY_FIRST,
                         method_call,
@@ -466,7 +464,7 @@ class CheckedCoverageInstrumentation(python3_11.CheckedCoverageInstrumentation):
                 )
             case "STORE_ATTR":
                 # Instrumentation mostly after the original instruction
-                node.basic_block[override(instr_index)] = (
+                node.basic_block[node.override(instr_index)] = (
                     self.instructions_generator.generate_overriding_instructions(
                         InstrumentationSetupAction.COPY_FIRST_SHIFT_DOWN_TWO,
                         instr,
@@ -503,7 +501,7 @@ class CheckedCoverageInstrumentation(python3_11.CheckedCoverageInstrumentation):
         match instr.name:
             case "STORE_SLICE":
                 # Instrumentation mostly after the original instruction
-                node.basic_block[override(instr_index)] = (
+                node.basic_block[node.override(instr_index)] = (
                     self.instructions_generator.generate_overriding_instructions(
                         InstrumentationSetupAction.COPY_THIRD_SHIFT_DOWN_FOUR,
                         instr,
@@ -513,7 +511,7 @@ class CheckedCoverageInstrumentation(python3_11.CheckedCoverageInstrumentation):
                 )
             case "BINARY_SLICE":
                 # Instrumentation mostly after the original instruction
-                node.basic_block[override(instr_index)] = (
+                node.basic_block[node.override(instr_index)] = (
                     self.instructions_generator.generate_overriding_instructions(
                         InstrumentationSetupAction.COPY_THIRD_SHIFT_DOWN_THREE,
                         instr,
@@ -561,10 +559,10 @@ class CheckedCoverageInstrumentation(python3_11.CheckedCoverageInstrumentation):
             case "DELETE_DEREF":
                 # Instrumentation before the original instruction
                 # (otherwise we can not read the data)
-                node.basic_block[before(instr_index)] = instructions
+                node.basic_block[node.before(instr_index)] = instructions
             case "STORE_DEREF" | "LOAD_DEREF" | "LOAD_FROM_DICT_OR_DEREF":
                 # Instrumentation after the original instruction
-                node.basic_block[after(instr_index)] = instructions
+                node.basic_block[node.after(instr_index)] = instructions
 
     METHODS: ClassVar[
         dict[
